@@ -98,6 +98,7 @@ def monitor_sched(case_lines, out_lines, S, F):
         doff_ = int(vlib.parse_obs(out_lines[0]).get("doff", "0")) if out_lines else 0
     except ValueError:
         doff_ = 0
+    wipes_ = any(x and x[0] in ("rewind", "clear") for ops_ in progs.values() for x in ops_)
     rewound_ = any(x and x[0] in ("rewind", "clear") for ops_ in progs.values() for x in ops_) or any(x and x[0] in ("rewind", "clear") for x in pre_ops)
     di0 = None
     try:
@@ -184,6 +185,12 @@ def monitor_sched(case_lines, out_lines, S, F):
                     V.append(("C15", "reader-panics", f"t={tid} {' '.join(op)} -> {r}"))
                 if op[0] == "checksum":
                     V.append(("C19", "checksum-panics", f"t={tid} {' '.join(op)} -> {r}"))
+                if op[0] == "slices":
+                    V.append(("C15", "slices-panic", f"t={tid} slices -> {r}"))
+            if op[0] == "slices" and r == "ok" and o.get("val", "").count(",") == 3:
+                f_ = o["val"].split(",")
+                if f_[2] != cfg.get("cap"):
+                    V.append(("C15", "slice-lengths", f"t={tid} memory() has {f_[2]} bytes, the capacity is {cfg.get('cap')}"))
             if op[0] in ("rd", "rd_var") and tid in last_cursor:
                 # judged against the cursor value this very call observed (its own load of `allocated`)
                 al_ = last_cursor[tid]; off_ = int(op[-1])
@@ -200,7 +207,9 @@ def monitor_sched(case_lines, out_lines, S, F):
                     for p_ in ("C02", "C01", "C04"):
                         V.append((p_, "below-data-offset", f"t={tid} {' '.join(op)} got [{off},{off+cap}), which starts below data_offset() = {doff_} (inside the reserved prefix / the header)"))
                 if cap > 0:
-                    for h2, (o2, c2) in list(live.items()) + [(None, d) for d in dead]:
+                    # (a thread program that clears / rewinds the arena gives up every handle of the case at some point of
+                    # the schedule: no exclusivity claim then)
+                    for h2, (o2, c2) in ([] if wipes_ else list(live.items()) + [(None, d) for d in dead]):
                         if off < o2 + c2 and o2 < off + cap:
                             V.append(("C02", "overlap", f"t={tid} {' '.join(op)} got [{off},{off+cap}) which overlaps the live range [{o2},{o2+c2})"))
                     live[int(op[1])] = (off, cap)
